@@ -1037,22 +1037,19 @@ impl<T: Send> AsyncReceiver<T> {
   pub fn to_sync(self) -> Receiver<T> {
     if self.is_registered {
       let state_ptr = &*self.state as *const AtomicU8;
-      if self
-        .state
-        .compare_exchange(
-          STATE_WAITING,
-          STATE_CANCELLED,
-          Ordering::SeqCst,
-          Ordering::SeqCst,
-        )
-        .is_ok()
-      {
-        // Eagerly unlink before mem::forget so the pointer doesn't dangle.
-        let mut guard = self.shared.internal.lock();
-        guard
-          .waiting_async_receivers
-          .retain(|w| w.state != state_ptr);
-      }
+      let _ = self.state.compare_exchange(
+        STATE_WAITING,
+        STATE_CANCELLED,
+        Ordering::SeqCst,
+        Ordering::SeqCst,
+      );
+      // Eagerly unlink before the flag is freed so the pointer doesn't dangle. A
+      // sender-side close marks the waiter but leaves it queued, so unlink
+      // whatever the state is.
+      let mut guard = self.shared.internal.lock();
+      guard
+        .waiting_async_receivers
+        .retain(|w| w.state != state_ptr);
     }
     let shared = unsafe { std::ptr::read(&self.shared) };
     let state = unsafe { std::ptr::read(&self.state) };
@@ -1092,21 +1089,18 @@ impl<T: Send> Drop for AsyncReceiver<T> {
     let _ = self.close();
     if self.is_registered {
       let state_ptr = &*self.state as *const AtomicU8;
-      if self
-        .state
-        .compare_exchange(
-          STATE_WAITING,
-          STATE_CANCELLED,
-          Ordering::SeqCst,
-          Ordering::SeqCst,
-        )
-        .is_ok()
-      {
-        let mut guard = self.shared.internal.lock();
-        guard
-          .waiting_async_receivers
-          .retain(|w| w.state != state_ptr);
-      }
+      let _ = self.state.compare_exchange(
+        STATE_WAITING,
+        STATE_CANCELLED,
+        Ordering::SeqCst,
+        Ordering::SeqCst,
+      );
+      // Unlink whatever the state is: a sender-side close marks the waiter but
+      // leaves it queued, and the queue must not outlive the flag it points at.
+      let mut guard = self.shared.internal.lock();
+      guard
+        .waiting_async_receivers
+        .retain(|w| w.state != state_ptr);
     }
   }
 }
